@@ -118,11 +118,15 @@ type vpDesc struct {
 }
 
 func (d *vpDesc) close() {
+	// SO_LINGER 0: a TCP pair is torn down by reset, leaving no TIME_WAIT entry behind (thousands of pairs per run)
+	lg := &syscall.Linger{Onoff: 1, Linger: 0}
 	if d.a >= 0 {
+		syscall.SetsockoptLinger(d.a, syscall.SOL_SOCKET, syscall.SO_LINGER, lg)
 		syscall.Close(d.a)
 		d.a = -1
 	}
 	if d.b >= 0 {
+		syscall.SetsockoptLinger(d.b, syscall.SOL_SOCKET, syscall.SO_LINGER, lg)
 		syscall.Close(d.b)
 		d.b = -1
 	}
@@ -609,7 +613,7 @@ func vpOpenFds() int {
 }
 
 func vpWaitGoroutines(base int) bool {
-	dl := time.Now().Add(5 * time.Second)
+	dl := time.Now().Add(20 * time.Second)
 	for i := 0; runtime.NumGoroutine() > base; i++ {
 		if time.Now().After(dl) {
 			return false
@@ -1081,10 +1085,10 @@ func VerifPollHMain(args []string) int {
 	go func() {
 		last := int64(-1)
 		for {
-			time.Sleep(90 * time.Second)
+			time.Sleep(300 * time.Second)
 			cur := atomic.LoadInt64(&progress)
 			if cur == last {
-				fmt.Fprintln(os.Stderr, "pollh: no progress for 90s, giving up")
+				fmt.Fprintln(os.Stderr, "pollh: no progress for 300s, giving up")
 				ow.Flush()
 				iw.Flush()
 				os.Exit(3)
